@@ -8,13 +8,13 @@ package simsync
 
 import (
 	"sync"
+	"sync/atomic"
 
 	"verifsim/simrt"
 )
 
 type (
 	WaitGroup = sync.WaitGroup
-	Once      = sync.Once
 	Cond      = sync.Cond
 	Pool      = sync.Pool
 	Map       = sync.Map
@@ -130,3 +130,25 @@ type Mutex struct{ rw RWMutex }
 func (m *Mutex) Lock()         { m.rw.Lock() }
 func (m *Mutex) Unlock()       { m.rw.Unlock() }
 func (m *Mutex) TryLock() bool { return m.rw.TryLock() }
+
+// Once: the real sync.Once holds a real mutex while f runs; a second caller then waits on that mutex, which is not a
+// durable block, while f itself may be descheduled at a simulated lock (park mode) - the bubble would never settle.
+type Once struct {
+	done atomic.Uint32
+	m    Mutex
+}
+
+func (o *Once) Do(f func()) {
+	if o.done.Load() == 0 {
+		o.doSlow(f)
+	}
+}
+
+func (o *Once) doSlow(f func()) {
+	o.m.Lock()
+	defer o.m.Unlock()
+	if o.done.Load() == 0 {
+		defer o.done.Store(1)
+		f()
+	}
+}
